@@ -256,7 +256,10 @@ func phaseMain(root string) {
 	must(json.Unmarshal(b, &shapes))
 	var sb strings.Builder
 	sb.WriteString("// Code generated by gengram (verification harness). DO NOT EDIT.\npackage main\n\nimport (\n")
-	sb.WriteString("\t\"verifharness/corr\"\n\n\t\"gen/decl\"\n\t\"gen/decl_ins\"\n\tfresh \"gen/fresh/testobj_ins\"\n")
+	sb.WriteString("\t\"verifharness/corr\"\n\n\t\"gen/decl\"\n\t\"gen/decl_ins\"\n")
+	if m, _ := filepath.Glob(filepath.Join(root, "fresh", "testobj_ins", "*_ins.go")); len(m) > 0 {
+		sb.WriteString("\tfresh \"gen/fresh/testobj_ins\"\n")
+	}
 	sb.WriteString("\t\"github.com/koykov/inspector/testobj\"\n\t\"github.com/koykov/inspector/testobj_ins\"\n)\n\nfunc main() {\n")
 	for _, n := range shippedTypes {
 		x := strings.ToLower(n) + ".xml"
